@@ -355,6 +355,10 @@ impl FixtureDatabase {
                                 if self.file_cache.contains_key(&canonical) {
                                     reanalyze_as_plugin.insert(canonical.clone());
                                 }
+                                // A module examined before it became a plugin file has to be
+                                // examined again so that its own star imports / pytest_plugins
+                                // inherit the plugin status.
+                                processed_files.remove(&canonical);
                             }
 
                             if !processed_files.contains(&canonical) {
@@ -390,6 +394,10 @@ impl FixtureDatabase {
                                 if self.file_cache.contains_key(&canonical) {
                                     reanalyze_as_plugin.insert(canonical.clone());
                                 }
+                                // A module examined before it became a plugin file has to be
+                                // examined again so that its own star imports / pytest_plugins
+                                // inherit the plugin status.
+                                processed_files.remove(&canonical);
                             }
 
                             if !processed_files.contains(&canonical) {
